@@ -193,6 +193,18 @@ def rules(ctx):
         facs = [(n_, expand_names(fn.node, n_.value)) for n_ in walk_no_nested(strip_docstring(fn.node.body)) if isinstance(n_, ast.Assign)
                 and len(n_.targets) == 1 and isinstance(n_.targets[0], ast.Name) and isinstance(n_.value, ast.BinOp)
                 and isinstance(n_.value.op, ast.Div) and 'max(' in src(expand_names(fn.node, n_.value.right))]
+        if (not facs or not loops) and tgt == 'self':
+            # the method may delegate to the module-level function: then the requested value must be handed on
+            dcalls = [c for c in calls_in(fn.node, 'normalize') if isinstance(c.func, ast.Name) and c.args and is_name(c.args[0], src_name)]
+            if dcalls:
+                from ..astutil import bind_args
+                b = bind_args(dcalls[0], nz)
+                okf = nz.params[1] in b and is_name(b[nz.params[1]], valp)
+                ctx.inst('R18.5', fn, dcalls[0], okf,
+                         "delegates to normalize(self, value)" if okf else
+                         "the method delegates to normalize() without its `%s` argument: the model is always scaled to the "
+                         "function's default" % valp)
+                continue
         if not facs or not loops:
             raise AnalysisError("normalize (%s): factor / loop not recognised" % fn.qual)
         s_, v = facs[0]
